@@ -4,6 +4,9 @@ From PV Require Import Params.Lex.
 Import ListNotations.
 Local Open Scope N_scope.
 
+Lemma frev_rev : forall (A : Type) (l : list A), frev l = rev l.
+Proof. intros. unfold frev. symmetry. apply rev_alt. Qed.
+
 Lemma beq_refl : forall a, beq a a = true.
 Proof. induction a; simpl; auto. rewrite N.eqb_refl. auto. Qed.
 
@@ -27,7 +30,7 @@ Lemma lex_body_qbody : forall esc v acc tail,
   lex_body esc (q_body v ++ 39 :: tail) acc = Some (rev acc ++ v, tail).
 Proof.
   intros esc v. induction v as [|c v IH]; intros acc tail Hm Ht.
-  - cbn [q_body app]. cbn [lex_body]. rewrite N.eqb_refl. rewrite app_nil_r.
+  - cbn [q_body app]. cbn [lex_body]. rewrite N.eqb_refl. rewrite app_nil_r. rewrite frev_rev.
     destruct tail as [|c2 r2]; auto. cbn [hd_is] in Ht. rewrite Ht. auto.
   - cbn [q_body].
     assert (Hm' : esc = true \/ has_bslash v = false).
@@ -201,12 +204,12 @@ Proof.
     cbn [andb]. cbn iota. change (next_prev POther 69) with PE.
     cbn [split_go]. change (39 =? 59) with false. change (39 =? 39) with true. cbn iota.
     rewrite <- app_assoc. cbn [app].
-    rewrite split_qbody by auto. cbn [split_go]. change (59 =? 59) with true. cbn iota.
+    rewrite split_qbody by auto. cbn [split_go]. change (59 =? 59) with true. cbn iota. rewrite frev_rev.
     f_equal. f_equal. cbn [rev]. rewrite !rev_app_distr. cbn [rev app]. rewrite !rev_involutive.
     rewrite <- !app_assoc. reflexivity.
   - cbn [app]. cbn [split_go]. change (39 =? 59) with false. change (39 =? 39) with true. cbn iota.
     rewrite <- app_assoc. cbn [app].
-    rewrite split_qbody by auto. cbn [split_go]. change (59 =? 59) with true. cbn iota.
+    rewrite split_qbody by auto. cbn [split_go]. change (59 =? 59) with true. cbn iota. rewrite frev_rev.
     f_equal. f_equal. cbn [rev]. rewrite !rev_app_distr. cbn [rev app]. rewrite !rev_involutive.
     rewrite <- !app_assoc. reflexivity.
 Qed.
@@ -239,7 +242,7 @@ Lemma split_stmts_gen : forall scs d, keys_ok d = true ->
 Proof.
   intros. unfold split_stmts.
   rewrite <- (app_nil_r (gen_batch d)). rewrite split_gen_batch by auto.
-  cbn [split_go]. rewrite app_nil_r. cbn [rev]. rewrite rev_involutive.
+  cbn [split_go]. rewrite !frev_rev. rewrite app_nil_r. cbn [rev]. rewrite rev_involutive.
   cbn [app]. rewrite filter_app. cbn [filter blank forallb negb app].
   rewrite app_nil_r. rewrite filter_stmt_texts. reflexivity.
 Qed.
